@@ -20,7 +20,7 @@ type caseC13cmp struct {
 
 // pairGen draws scalar pairs by relation class.
 func pairGen(t *rapid.T) caseC13cmp {
-	rel := rapid.SampledFrom([]string{"equal", "adjacent", "canon-limb", "mont-limb", "random", "equal-other-domain", "canon-words", "canon-words"}).Draw(t, "rel")
+	rel := rapid.SampledFrom([]string{"equal", "adjacent", "canon-limb", "mont-limb", "random", "equal-other-domain", "canon-words", "canon-words", "equal-computed", "equal-computed"}).Draw(t, "rel")
 	s := SVGen().Draw(t, "s")
 	c := caseC13cmp{S: s, Rel: rel}
 	switch rel {
@@ -40,6 +40,14 @@ func pairGen(t *rapid.T) caseC13cmp {
 		d := int64(rapid.SampledFrom([]int{-1, 1}).Draw(t, "d"))
 		v.Mod(v.Add(v, big.NewInt(d)), ref.N)
 		c.T = SV{Hex: gen.H(v)}
+	case "equal-computed":
+		// the same value, once plain and once as the result of an arithmetic operation of the package
+		v := s.Value()
+		c.S = SV{Hex: gen.H(v)}
+		c.T = SV{Hex: gen.H(v), Hist: ProvBase + gen.Pick(t, "prov", NumProv)}
+		if rapid.Bool().Draw(t, "swapST") {
+			c.S, c.T = c.T, c.S
+		}
 	case "canon-words":
 		// t agrees with s in some words and differs in several others (either direction)
 		wb := uint(rapid.SampledFrom([]int{64, 32}).Draw(t, "wb"))
@@ -117,7 +125,7 @@ var c13cmp = gen.Register(&gen.Check[caseC13cmp]{
 		}
 		return out
 	},
-	Required: []string{"rel:canon-words", "rel:equal", "rel:adjacent", "rel:canon-limb", "rel:mont-limb", "rel:random", "s<t", "s>t"},
+	Required: []string{"rel:equal-computed", "rel:canon-words", "rel:equal", "rel:adjacent", "rel:canon-limb", "rel:mont-limb", "rel:random", "s<t", "s>t"},
 	Run: func(c caseC13cmp, o *gen.Obs) error {
 		hostileCaller()
 		vs, vt := c.S.Value(), c.T.Value()
@@ -126,7 +134,7 @@ var c13cmp = gen.Register(&gen.Check[caseC13cmp]{
 		o.Class("rel:" + c.Rel)
 		o.ClassIf(cmp < 0, "s<t")
 		o.ClassIf(cmp > 0, "s>t")
-		o.NonTrivialIf(cmp != 0)
+		o.NonTrivialIf(cmp != 0 || c.Rel == "equal-computed" || c.Rel == "equal-other-domain")
 		s0, t0 := s.S, t.S
 		if got := s.Equal(t); got != b2i(cmp == 0) {
 			return gen.Fail("Equal", "Equal(%x, %x) = %d", vs, vt, got)
@@ -176,7 +184,7 @@ var c13sel = gen.Register(&gen.Check[caseC13sel]{
 	Gen: func(t *rapid.T) caseC13sel {
 		c := caseC13sel{U: SVGen().Draw(t, "u"), V: SVGen().Draw(t, "v"), Prior: SVGen().Draw(t, "prior")}
 		if rapid.IntRange(0, 2).Draw(t, "condKind") == 0 {
-			c.Cond = rapid.Uint64().Draw(t, "cond")
+			c.Cond = gen.U64(t, "cond")
 		} else {
 			c.Cond = rapid.SampledFrom(condWords).Draw(t, "condPat")
 		}
